@@ -615,7 +615,10 @@ __goon:
 			return lexEscape
 
 		case utf8.RuneError:
-			l.errorf("invalid UTF-8 rune")
+			// width 1 is an invalid encoding; a well-formed U+FFFD is 3 bytes wide
+			if l.width == 1 {
+				l.errorf("invalid UTF-8 rune")
+			}
 
 		case eof, '\n':
 			return l.errorf("unterminated quoted string within lexString")
